@@ -7,21 +7,33 @@
 (* uses capacity = refill rate = max_qps) holds c*Unit units and refills   *)
 (* c units per tick.  Fractional tokens exist as soon as Unit >= 2.        *)
 (*                                                                         *)
-(* RateLimiter::check_limit is NOT atomic: it takes the tenant bucket's    *)
-(* mutex, releases it, takes the global bucket's mutex, releases it, and   *)
-(* on a global refusal takes the tenant mutex a third time to refund.      *)
-(* Every critical section is one action here, so TLC explores all          *)
-(* interleavings of the caller threads and of the clock:                   *)
+(* RateLimiter::check_limit (consume_tenant_then_global) locks the tenant   *)
+(* bucket, consumes a tenant token, then - still holding the tenant lock - *)
+(* locks the global bucket and consumes a global token, and on a global    *)
+(* refusal refunds the tenant token before it unlocks the tenant bucket.   *)
+(* Each of the two try_consume calls reads the clock itself, so time can   *)
+(* pass between them, and callers of OTHER tenants interleave on the       *)
+(* global bucket.  One action per step, the tenant lock is implicit in pc: *)
 (*                                                                         *)
-(*   Begin          lookup / lazy creation of the tenant bucket (map lock) *)
-(*   ConsumeTenant  bucket.lock().try_consume()   (refill, then >= 1.0 ?)  *)
+(*   ConsumeTenant  lookup / lazy creation of the tenant bucket, lock it,  *)
+(*                  try_consume()   (refill, then >= 1.0 ?)                *)
 (*   ConsumeGlobal  global.lock().try_consume()                            *)
-(*   Refund         bucket.lock().refund_one()    (no refill, capped)      *)
+(*   Refund         refund_one()    (no refill, capped), unlock            *)
 (*   Tick           the monotonic clock advances                           *)
 (*                                                                         *)
-(* History variables (part of the state, bounded by MaxTick and the        *)
-(* capacities): admT / admG count admitted calls by the tick at which they *)
-(* took their tenant / global token.                                       *)
+(* AtomicTenantGlobal = FALSE is the protocol before the repair (commit    *)
+(* "fix: keep the tenant bucket locked across the global consume and       *)
+(* refund"): the tenant lock was released between the three steps.  With   *)
+(* a global bucket and two callers of one tenant that protocol admits a    *)
+(* tenant one token per other concurrent caller above burst + rate * t     *)
+(* (a token held by a caller on its way to a global refusal is hidden from *)
+(* the capacity cap, a concurrent call refills to "full" next to it, the   *)
+(* refund lands on top).  The check keeps running the old protocol         *)
+(* expecting those counterexamples.                                        *)
+(*                                                                         *)
+(* History variable (part of the state, bounded by MaxTick and the         *)
+(* capacities): win counts the admitted calls by <<tick of their tenant    *)
+(* consume, tick of their return>>; the invariants are stated over it.     *)
 (*                                                                         *)
 (* `Bug` selects a seeded mutation of the algorithm; it is "none" for the  *)
 (* model of the real code and is used by the check's self-test to show     *)
@@ -36,8 +48,10 @@ CONSTANTS NT,        \* tenants 1..NT
           GCap,      \* capacity of the global bucket, 0 = no global bucket
           Unit,      \* fixed-point units per token = ticks per second
           MaxTick,   \* clock horizon
-          Strict,    \* "none": the invariants the code is expected to satisfy.  "window" | "neutral" |
-                     \* "withhold": additionally one stricter statement (see the end of the module)
+          AtomicTenantGlobal,  \* TRUE: tenant lock held from the tenant consume to the verdict (the code);
+                     \* FALSE: released between the steps (the code before the repair)
+          Strict,    \* which of the three statements that the old protocol breaks are asserted exactly as stated:
+                     \* "all" | "window" | "neutral" | "withhold" | "none" (see the end of the module)
           Bug        \* "none" | "refund_uncapped" | "no_refund" | "refund_on_tenant_refusal"
                      \* | "refill_uncapped" | "ge_zero"
 
@@ -99,6 +113,8 @@ LevelSet(b, cons) == { Full(b) + Rate(b) * (now - s) - Unit * SumRange(cons, s, 
 Level(b, cons) == CHOOSE x \in LevelSet(b, cons) : \A y \in LevelSet(b, cons) : x <= y
 
 Holders(t)    == { c \in Callers : pc[c] \in {"global", "refund"} /\ ten[c] = t }
+\* the tenant bucket's mutex is held by a caller between its tenant consume and its verdict
+Locked(t)     == AtomicTenantGlobal /\ Holders(t) # {}
 Holding(t, u) == Cardinality({ c \in Holders(t) : ct[c] = u })
 \* tokens taken from tenant t's bucket: admitted calls, plus calls in flight that hold a token
 ConsH(t) == [u \in Ticks |-> ConsT(t)[u] + Holding(t, u)]
@@ -114,10 +130,10 @@ Return(c) == pc' = [pc EXCEPT ![c] = "idle"] /\ ten' = [ten EXCEPT ![c] = 0] /\ 
 Admit(c, t, u) == win' = [win EXCEPT ![t][<<u, now>>] = @ + 1] /\ Return(c)
 
 \* Lookup (read lock) or lazy creation (write lock, entry().or_insert_with(TokenBucket::new)) of the
-\* tenant bucket, then bucket.lock().try_consume().  The lookup is folded into this step: the caller's
+\* tenant bucket, then bucket.lock() (blocks while another caller holds it) and try_consume().  The lookup is folded into this step: the caller's
 \* `before` can only be earlier than the consume, which makes every window longer, never shorter.
 ConsumeTenant(c, t) ==
-  /\ pc[c] = "idle"
+  /\ pc[c] = "idle" /\ ~Locked(t)
   /\ LET b0 == IF bk[t].ex THEN bk[t] ELSE [tok |-> Full(t), last |-> now, ex |-> TRUE]
          s  == Refill(t, b0)
      IN IF Enough(s.tok)
@@ -149,7 +165,7 @@ ConsumeGlobal(c) ==
              /\ UNCHANGED win
   /\ UNCHANGED <<now, okStrict>>
 
-\* bucket.lock().refund_one(): tokens = min(tokens + 1.0, capacity); no refill, last_refill untouched
+\* refund_one(): tokens = min(tokens + 1.0, capacity); no refill, last_refill untouched (then the tenant unlock)
 Refund(c) ==
   /\ pc[c] = "refund"
   /\ LET t == ten[c]
@@ -193,20 +209,19 @@ TenantWindowOK(extra) == \A t \in Tenants : \A S \in 0..now : \A E \in S..now :
 GlobalWindowBound == HasGlobal => \A S \in 0..now : \A E \in S..now :
                             Unit * SumT(1, S, E) <= Full(G) + Rate(G) * (E - S)
 
-\* What the code satisfies for tenants.  The bound as stated (extra = 0) holds with one caller or with
-\* no global bucket, but NOT with a global bucket and two callers of one tenant: a caller that took the
-\* tenant token and is on its way to be refused by the global bucket hides that token from the
-\* capacity cap; a concurrent access refills the bucket to "full" next to the hidden token, and the
-\* refund then lands on top of refill that should have been discarded (Strict = "window" shows it).
-\* The excess is at most one token per other caller.
-TenantWindowBound == TenantWindowOK(IF Strict = "window" \/ ~HasGlobal THEN 0 ELSE Unit * (NC - 1))
+Asserted(x) == Strict = "all" \/ Strict = x \/ Cardinality(Callers) = 1
+
+\* The bound exactly as the property states it (extra = 0).  The old protocol (AtomicTenantGlobal = FALSE)
+\* breaks it with a global bucket and two callers of one tenant; what it does keep is the bound plus one
+\* token per other caller, which is what is asserted when "window" is not selected.
+TenantWindowBound == TenantWindowOK(IF Asserted("window") \/ ~HasGlobal THEN 0 ELSE Unit * (NC - 1))
 
 \* ---- refund ---------------------------------------------------------------------------------------
 \* A call refused by the global bucket never costs the tenant anything: the tenant bucket (modulo the
 \* refill its next access applies) holds at least what admitted calls and calls still in flight leave.
 RefundNeverCosts == \A t \in Tenants : bk[t].ex => Refilled(t) >= Level(t, ConsH(t))
-\* ... and "leaves the bucket exactly as it was" (Strict = "neutral"); fails for the reason above.
-RefundNeutral == (Strict = "neutral" \/ NC = 1) => \A t \in Tenants : bk[t].ex => Refilled(t) = Level(t, ConsH(t))
+\* ... and leaves the bucket exactly as it was (old protocol: fails, the tenant can end up with MORE).
+RefundNeutral == Asserted("neutral") => \A t \in Tenants : bk[t].ex => Refilled(t) = Level(t, ConsH(t))
 \* the global bucket is consumed by admitted calls only, exactly
 GlobalExact   == HasGlobal => Refilled(G) = Level(G, ConsG)
 
@@ -214,10 +229,9 @@ GlobalExact   == HasGlobal => Refilled(G) = Level(G, ConsG)
 \* No call was refused at a stage whose bucket, as determined by admitted and in-flight calls, held a token.
 NoStarveBelowRate == okStarve
 
-\* Stricter reading that ignores the tokens held by calls already refused by the global bucket
-\* (Strict = "withhold"): "no call is refused at the tenant stage while the tenant bucket determined by
-\* admitted and still-undecided calls holds a token and the global bucket has room".  Fails: between a caller's failed global consume and its refund the tenant token is
-\* withheld; if the clock advances in that window the global bucket regains room and a concurrent call
-\* of the same tenant is refused.  Not observable on caller clocks (the two calls overlap).
-NoTransientWithhold == (Strict = "withhold" \/ NC = 1) => okStrict
+\* No call is refused at the tenant stage while the tenant bucket determined by admitted and still-undecided
+\* calls (NOT counting tokens held by calls that the global bucket already refused) holds a token and the
+\* global bucket has room.  Old protocol: fails - between a caller's failed global consume and its refund the
+\* tenant token is withheld from concurrent calls of the same tenant.
+NoTransientWithhold == Asserted("withhold") => okStrict
 =============================================================================
